@@ -3,7 +3,7 @@
    timestamp rule of the version index change in /repo, these equalities stop being provable and
    every property whose theorems rest on the model reports a broken obligation. *)
 From Coq Require Import List Arith Bool NArith.
-From Conductor Require Import Gen.Generated Model.Loader Model.Planner Model.Exec Model.Store.
+From Conductor Require Import Gen.Generated Model.Loader Model.Planner Model.Exec Model.Store Proofs.ExecNested.
 Import ListNotations.
 
 (* Executor._launch_ops_if_able: the loop goes on exactly when the model's gate is open *)
@@ -38,3 +38,48 @@ Proof. reflexivity. Qed.
 (* the planner reports a first-visited task as cached (and does not traverse it) exactly when the model does *)
 Lemma prune_tie : forall again b, gen_prune again b = negb again && negb b.
 Proof. reflexivity. Qed.
+
+(* ... and that is the slot the model's launch step records: when the dequeued operation is launched
+   (its dependencies succeeded, the launch does not fail) the start event carries the top of the
+   free-slot stack exactly when the TRANSLATED condition holds of the operation just dequeued *)
+Lemma slot_tie_launch : forall p jobs stop orc s,
+  let o := fst (fst (dequeue s)) in
+  forallb (succeeded s) (exe_deps p o) = true -> launch_fails orc o = false ->
+  trace (launch_one p jobs stop orc s) =
+  EStart o (if gen_wants_slot (is_par p o) jobs then hd_error (avail s) else None) :: trace s.
+Proof.
+  intros p jobs stop orc s. unfold launch_one. destruct (dequeue s) as [[o rS] rP]. cbn [fst].
+  intros Hd Hl. rewrite Hd, Hl. cbn [negb]. unfold gen_wants_slot.
+  destruct (op_sync (opi p o)); reflexivity.
+Qed.
+
+(* ... and that is the branch the model's planner step takes: a task visited for the first time is
+   recorded as cached, and its dependencies are not pushed, exactly when the TRANSLATED condition
+   holds of (--again, should_run t) *)
+Lemma prune_tie_pstep : forall info sr again s i stk,
+  stack s = i :: stk ->
+  let t := lt_task (nth i (store s) dummy_lt) in
+  lt_second (nth i (store s) dummy_lt) = false -> Planner.lookup t (visited s) = None ->
+  match pstep info sr again s with
+  | Some s' => if gen_prune again (sr t) then cached s' = cached s ++ [t] /\ stack s' = stk
+               else cached s' = cached s
+  | None => False
+  end.
+Proof.
+  intros info sr again s i stk Es t H2 Hl. unfold pstep. rewrite Es. fold t. rewrite H2. cbn [negb]. rewrite Hl.
+  unfold gen_prune. destruct (negb again && negb (sr t)).
+  - split; reflexivity.
+  - destruct (push_deps _ _ _ _ _) as [[st1 stk1] deps1]. reflexivity.
+Qed.
+
+(* the three tests of the NESTED loops (Proofs/ExecNested.v: Run / Launch) are the translated ones, at
+   every state, with no side condition: `while has_ops or len(inflight) > 0`, the break test of
+   _launch_ops_if_able, and `if len(inflight) == 0: continue` *)
+Lemma nested_tie : forall jobs s,
+  loop_cond s = gen_loop_goes_on (has_ops s) (inflight s) /\
+  gate_open jobs s = gen_gate_open (has_ops s) (has_par s) (runpar s) (inflight s) jobs /\
+  Nat.eqb (inflight s) 0 = gen_skip_wait (inflight s).
+Proof.
+  intros jobs s. split; [|split; [apply gate_tie | reflexivity]].
+  unfold loop_cond, gen_loop_goes_on. destruct (inflight s); reflexivity.
+Qed.
